@@ -201,9 +201,15 @@ def world_plans(draw, tier):
         mine = [m for m in setup if m['op'] == 'mk']
         oplist = []
         for i in range(n):
-            r = draw(st.integers(0, 19))
+            r = draw(st.integers(0, 19 if K == 1 else 11))
             if r == 0 and len(oplist) < n - 1:
                 mk = draw(mk_ops(specs, next_slot))
+                twins = [m for m in setup if m['op'] == 'mk'] + [
+                    o for th in threads for o in th if o['op'] == 'mk']
+                if twins and draw(st.booleans()):
+                    # the very same function (same classes, same order) is created again,
+                    # possibly while another thread is creating or using its twin
+                    mk = dict(draw(st.sampled_from(twins)), slot=next_slot)
                 next_slot += 1
                 oplist.append(mk)
                 mine = mine + [mk]
